@@ -22,6 +22,7 @@ func init() { gen.Register("ConcGen.v", genConc) }
 //   hook:<site>                 verifhook.At("<site>")
 //   lock / unlock / defer-unlock / rlock / runlock / defer-runlock     on <recv>.mu
 //   read:<map> / write:<map>    index expression on a field named packages / Schemas / Packages
+//   delete:<map>                delete(x.<map>, key)
 //   read:To / write:To          the To field of a RefSchema
 //   call:<name>                 call of another function of the table (method of the same receiver,
 //                               refTo / referencePackage through the RootSet interface,
@@ -121,6 +122,11 @@ func tokens(fd *ast.FuncDecl, methods map[string]bool) []string {
 				return false
 			}
 			c := selChain(x.Fun)
+			if len(c) == 1 && c[0] == "delete" && len(x.Args) == 2 {
+				if m := selChain(x.Args[0]); len(m) >= 2 && sharedMaps[m[len(m)-1]] {
+					toks = append(toks, "delete:"+m[len(m)-1])
+				}
+			}
 			if len(c) == 2 && c[0] == "verifhook" && c[1] == "At" && len(x.Args) == 1 {
 				if bl, ok := x.Args[0].(*ast.BasicLit); ok && bl.Kind == token.STRING {
 					s, _ := strconv.Unquote(bl.Value)
